@@ -68,6 +68,13 @@ PROVED - element and filter are judged as a truth table over (outside, id in map
 clone map (`setdefault(x.id, x)`, guarded store, staged dict) is REFUTED there, as is a rebuild that looks every link end up by
 id when nothing is registered.  The older clauses still analyse the registration form (owner test, coverage) so that seeded
 changes of that form keep their verdicts.
+Rounds 8/9: own state of WBS in a PUBLIC attribute holding a mutable container / tasks is REFUTED in wbs-attrs (the copy loop
+hands it to every copy; C10-r81); a constructor parameter that Task.__init__ replaces by a value derived from ANOTHER parameter
+before storing it is REFUTED in fields (Task(estimate=self.estimate, ..) is then not the identity; C10-r83); guards of relation
+stores that test `t.id in <id set built from the selection>` are interpreted (C10-r82); link lists built by a private method or a
+local closure with an append loop (if/elif, guard clause + continue, body locals) are executed symbolically into the
+comprehension they compute (clone_common._loop_as_comprehension), so `map.get(x.id)`-first helpers are REFUTED as "outside task
+looked up by id" (C10-r91); attribute names memoised on the class are REFUTED (C10-r92); worklist form of _attach.
 Not decided (C10-r71): duplicate / overlapping roots handed to the children setter - the outcome depends on the counting
 logic of task._has_id_intersection (id-uniqueness check, C05), which this module does not read.
 
